@@ -152,12 +152,59 @@ def drive_sort(sc):
                 value = -value if col[0] == "objneg" else value
         trace.append({**base, "ev": "Sort", "via": "e2e", "outcome": outcome2,
                       "w": nums(w) if w is not None else [], "value": num(value)})
+    # the same ensemble as the FIRST vector of a two-vector batch of an evaluator step (the second vector evaluates without
+    # failures): the step ends with TOO_FEW_REALIZATIONS exactly when the window selects nothing for the first vector
+    if outcome != "rejected":
+        trace.append({**base, "ev": "Sort", "via": "e2e", "step_batch": True, **_step_batch(config, o, c, objs, cons, col)})
     n, nsucc = sc["n"], int((~failed).sum())
     valid = sc["first"] <= sc["last"] < n
     feats = {"nontrivial": bool(valid and (sc["last"] - sc["first"] + 1 < nsucc or (failed.any() and sc["last"] >= nsucc))),
              "key": f"sort|{_flavour(sc)}|{sc['val']}|{sc['o2']}|{sc['failed']}|{sc['first']}-{sc['last']}|{sc['cw']}",
              "valid_window": valid, "fam": sc.get("fam", "perm")}
     return trace, feats
+
+
+def _step_batch(config, o, c, objs, cons, col):
+    from ropt.enums import EventType, OptimizerExitCode
+    from ropt.plan import OptimizerContext, Plan
+    from ropt.results import FunctionResults
+    tables = {0: TableEvaluator(o, c), 1: TableEvaluator(objs, cons)}
+
+    def evaluator(variables, context):
+        first = variables[:, 0] < 0.5            # rows of the first vector (all zeros); the second one is all ones
+        res = tables[1](variables, context)
+        sick = tables[0](variables, context)
+        res.objectives[first] = sick.objectives[first]
+        if res.constraints is not None:
+            res.constraints[first] = sick.constraints[first]
+        return res
+    seen = []
+    ctx = OptimizerContext(evaluator=evaluator, plugin_manager=plugin_manager())
+    ctx.add_observer(EventType.FINISHED_EVALUATION, lambda e: seen.extend(e.data["results"]))
+    plan = Plan(ctx)
+    step = plan.add_step("evaluator")
+    code, outcome = outcome_of(lambda: plan.run_step(step, config=config, variables=np.array([[0.0, 0.0], [1.0, 1.0]])))
+    fr = [r for r in seen if isinstance(r, FunctionResults)]
+    w = value = None
+    if outcome == "ok":
+        if len(fr) != 2:
+            outcome = "batch_results_missing"
+        else:
+            r = fr[0]
+            rows = r.realizations.objective_weights if col[0] != "con" else r.realizations.constraint_weights
+            w = None if rows is None else rows[col[1]]
+            # (with zero configured weights the window may select nothing for the second vector as well)
+            expected = (OptimizerExitCode.TOO_FEW_REALIZATIONS if any(x.functions is None for x in fr)
+                        else OptimizerExitCode.EVALUATION_STEP_FINISHED)
+            if code != expected:
+                outcome = ("too_few_not_signalled_by_the_step_exit_code" if expected == OptimizerExitCode.TOO_FEW_REALIZATIONS
+                           else "step_exit_code_" + str(code))
+            elif r.functions is None:
+                outcome = "nofunctions"
+            else:
+                value = (r.functions.objectives if col[0] != "con" else r.functions.constraints)[col[1]]
+                value = -value if col[0] == "objneg" else value
+    return {"outcome": outcome, "w": nums(w) if w is not None else [], "value": num(value)}
 
 
 class _ActiveTable(TableEvaluator):
